@@ -30,7 +30,12 @@ type PropConfig struct {
 	Assumptions []string  `json:"assumptions,omitempty"`
 	Bounded     []string  `json:"bounded,omitempty"`
 	Contracts   []string  `json:"contracts,omitempty"` // extra trusted contract files
+	// LockDiscipline: this property claims the lock-discipline preconditions (labels C32-...: "the lock is not
+	// held by this goroutine"). In every other property those call-site obligations are left to the C32 check.
+	LockDiscipline bool `json:"lock_discipline,omitempty"`
 }
+
+var lockDiscipline bool
 
 func globMatch(pat, s string) bool {
 	re := "^" + strings.ReplaceAll(regexp.QuoteMeta(pat), `\*`, ".*") + "$"
@@ -44,6 +49,9 @@ func selected(fs FuncSel, o *Obl) bool {
 		kind = "post" // the probe of a masked postcondition goes wherever the postcondition goes
 	}
 	tag := kind + ":" + o.Label
+	if !lockDiscipline && kind == "pre" && strings.Contains(o.Label, ":C32-") {
+		return false
+	}
 	for _, p := range fs.Skip {
 		if globMatch(p, tag) {
 			return false
